@@ -7,7 +7,7 @@ replay = c05.replay
 
 def payloads(r):
     out = []
-    for ln in [0, 1, 5, 40, 75, 76, 80, 200, 255, 256, 300, 1000, 3000]:
+    for ln in [0, 1, 5, 40, 49, 50, 51, 75, 76, 80, 200, 247, 248, 249, 250, 251, 252, 253, 255, 256, 300, 1000, 3000]:
         for form in ['direct', 'pd1', 'pd2', 'pd4']:
             for kind in ['ascii', 'utf8', 'bad', 'nl', 'special']:
                 if kind == 'ascii': d = bytes(r.randrange(32, 127) for _ in range(ln))
@@ -20,7 +20,7 @@ def payloads(r):
                         if len(d) + len(e) > ln: break
                         d += e
                     d += b'.' * (ln - len(d))
-                elif kind == 'utf8': d = gen.utf8_text(r, ln)
+                elif kind == 'utf8': d = gen.utf8_text(r, ln) if ln not in (50, 51, 80) else b'b' * (ln - 2) + 'é'.encode()      # a two-byte character ending exactly at offset ln
                 elif kind == 'nl': d = (b'two\nlines\n\nheight: 3         txid: ' + b'0' * 63 + b'    data: fake (63 hex digits: the harness splits stdout on the exact line prefix)')[:ln]
                 else: d = (bytes([r.choice([0x80, 0xc0, 0xf5, 0xff])]) + gen.rb(r, ln))[:ln]
                 p = scripts.push_form(d, form)
@@ -31,7 +31,7 @@ def explore(ck):
     r = ck.rng; quick = ck.tier == 'quick'
     ck.rule = ('opreturn runs on chains whose outputs carry OP_RETURN <one push> for every push form (direct, PUSHDATA1/2/4, minimal and non-minimal) x payload length 0..3000 x {ASCII, multi-byte UTF-8, '
                'invalid UTF-8, embedded newlines and look-alike lines, valid text made of U+FFFD / BOM / noncharacters / NUL / range ends}, several OP_RETURN outputs per transaction, OP_RETURN outputs that are not a single push, mixed with every other script type, '
-               'x bitcoin/testnet3/fork coins x ranges, and runs that fail inside the last block (the lines of the blocks before it must have been printed); the printed lines (height, txid, payload bytes) are compared with the model and with the property evaluated by the python reference '
+               'x bitcoin/testnet3/fork coins x ranges x verbosity (default and -vv), and runs that fail inside the last block (the lines of the blocks before it must have been printed); the printed lines (height, txid, payload bytes) are compared with the model and with the property evaluated by the python reference '
                '(printed iff single push, non-empty and - on bitcoin/testnet3 - valid UTF-8; fork coins print the lossy text). Non-trivial: >= 1 printed and >= 1 suppressed OP_RETURN output in the '
                'same run; distinct by case.')
     P = payloads(r)
@@ -59,6 +59,7 @@ def explore(ck):
         if k % 4 == 1 and len(blocks) > 2:
             # the blk file ends inside the last block: the run fails there, the lines of the earlier blocks have been printed
             o, dta = c.files[0][-1]; c.files[0][-1] = (o, dta[:len(dta) - len(blocks[-1].raw) // 2]); c.meta['cut'] = True
+        if k % 3 == 0: c.verbosity = 2          # -vv: debug/trace output interleaved with the lines must change neither the lines nor the exit status
         c.meta['blocks'] = blocks; cases.append(c)
     def nontrivial(c, m):
         printed = len(m['opret']); total = sum(1 for b in c.meta['blocks'] for t in b.txs for v, s in t.outputs if s[:1] == b'\x6a')
